@@ -289,6 +289,7 @@ type instance struct {
 	Blk      []blkSite
 	Tbl      []*tblEntry
 	Methods  []methodPaths
+	Panics   []methodPaths // panic exits taken while holding a lock
 	Other    []methodPaths
 	otherWhy map[string]string
 }
